@@ -1,5 +1,5 @@
 """C32 servers are ordered consistently and upload permission is enforced."""
-import hashlib
+import hashlib, os
 from datetime import timedelta
 from hypothesis import strategies as st
 from vf import gm, refhash
@@ -13,16 +13,123 @@ TECHNIQUE = ("Hypothesis over server sets (ids, permutation seeds given in the a
 RULE = ("each case: 1-8 servers, each with an announcement (explicit permutation seed or none; one in three also announcing HTTP NURLs; force_foolscap on in a quarter of cases) and 0-3 certificates; 0-3 preferred servers; 0-2 configured grid-manager keys; "
         "2 brokers populated in different orders; 1-3 storage indexes; 1-3 clock values. Oracle: get_servers_for_psi(si) == servers sorted by (not preferred, "
         "SHA1(si+seed)), identical for both brokers; with for_upload=True exactly the servers whose reference certificate predicate holds at the current clock value, in the "
-        "same order. Non-trivial = >=3 servers with a preferred one, or keys configured with both permitted and excluded servers; distinct by whole case.")
+        "same order.  Grid family: 3-7 servers announcing certificates (valid, lapsing between phases, expired, foreign-signed, none), a client configured with the "
+        "grid-manager key performs immutable uploads, mutable creates and overwrites in three phases (clock T0, +100 s, +200 s; servers going down); oracle: a server without a "
+        "currently valid certificate is never sent an immutable allocation and never gains a share number it did not hold. Non-trivial = >=3 servers with a preferred one, or keys configured with both permitted and excluded servers; distinct by whole case.")
 LEVEL_TEXT = "Differential search against a reference ordering and the certificate ground truth."
 ASSUMPTIONS = ["servers are created by StorageFarmBroker._make_storage_server from their announcement (Foolscap, or HTTP when the announcement carries NURLs and force_foolscap is off) and marked connected by the harness (no network)", "the broker's certificate clock (grid_manager.current_datetime_with_zone) is replaced by the harness clock"]
-REQUIRED_CLASSES = ["preferred", "seed-from-key", "seed-explicit", "upload-filtered", "upload-all-permitted", "cert-expires-between-clock-values", "http-server", "foolscap-server"]
+REQUIRED_CLASSES = ["preferred", "seed-from-key", "seed-explicit", "upload-filtered", "upload-all-permitted", "cert-expires-between-clock-values", "http-server", "foolscap-server", "grid-mixed-permitted", "publish-with-shares-on-server-whose-certificate-lapsed", "share-placed-on-permitted-server"]
 BUDGET = {"quick": 600, "thorough": 3600}
 
 
 def plan(tier):
     n = 240 if tier == "quick" else 5000
-    return [{"kind": "hyp", "n": n} for _ in range(16)]
+    return [{"kind": "hyp", "n": n} for _ in range(12)] + [{"kind": "grid", "n": 40 if tier == "quick" else 1200} for _ in range(4)]
+
+
+@st.composite
+def grid_cases(draw):
+    ns = draw(st.integers(3, 7))
+    # per server: certificate expiry relative to T0 (None = no certificate; negative = already expired; 50/150 = expires between the phases), signed by GM key 0 or a foreign key 1
+    certs = [draw(st.sampled_from([None, -10, 50, 150, 10 ** 6, 10 ** 6, 10 ** 6])) for _ in range(ns)]
+    foreign = [draw(st.integers(0, 5)) == 0 for _ in range(ns)]
+    phases = []
+    for t in (0, 100, 200):
+        phases.append({"t": t, "down": draw(st.lists(st.integers(0, ns - 1), max_size=ns - 1, unique=True)) if t else [],
+                       "ops": draw(st.lists(st.sampled_from(["upload", "overwrite", "overwrite", "create"]), min_size=1, max_size=2))})
+    return {"fam": "grid", "hsalt": draw(st.integers(0, 15)), "servers": ns, "certs": certs, "foreign": foreign, "phases": phases, "k": draw(st.integers(1, 2)), "n": draw(st.integers(2, 6)),
+            "configured": draw(st.sampled_from([True, True, True, False])), "fmt": draw(st.sampled_from(["sdmf", "mdmf"]))}
+
+
+def run_grid_case(case, ctx):
+    """Uploads and mutable publishes on the in-process grid by a client configured with a grid-manager key: which servers receive new shares."""
+    import allmydata.grid_manager as gmmod
+    from allmydata.immutable.upload import Data
+    from vf.grid import Grid
+    from vf.core import pbytes
+    from vf import mutfile, boot
+    ns, k, n = case["servers"], case["k"], case["n"]
+    now = [gm.T0]
+    orig = gmmod.current_datetime_with_zone
+    gmmod.current_datetime_with_zone = lambda: now[0]
+    mutfile.set_segsize(64)
+    classes = set()
+    nt = False
+    g = None
+    try:
+        # a grid without clients first (server ids are needed for the certificates)
+        g = Grid(ctx.casedir(), ns, {"k": k, "n": n, "happy": 1, "max_segment_size": 131072}, nclients=0)
+        gm_certs = {}
+        for i, srv in enumerate(g.servers):
+            if case["certs"][i] is not None:
+                spec = {"signer": 1 if case["foreign"][i] else 0, "server": 0, "expires": case["certs"][i], "tamper": None, "tpos": 0, "public_key": "pub-" + str(srv.server_id, "ascii")}
+                gm_certs[i] = [gm.build(spec)[0]]
+        keys = [gm.keypair(0)[1]] if case["configured"] else None
+        c = g.add_client({"k": k, "n": n, "happy": 1, "max_segment_size": 131072}, gm_keys=keys, gm_certs=gm_certs)
+
+        def permitted(i, t):
+            return (not case["configured"]) or (case["certs"][i] is not None and not case["foreign"][i] and case["certs"][i] > t)
+
+        def holdings():
+            out = {}
+            for srv in g.servers:
+                for dirpath, dirs, files in os.walk(srv.ss.sharedir):
+                    for fn in files:
+                        if fn.isdigit() and "incoming" not in dirpath:
+                            out.setdefault(srv.idx, set()).add((os.path.basename(dirpath), int(fn)))
+            return out
+        node = None
+        nup = 0
+        hist = []
+        for ph in case["phases"]:
+            t = ph["t"]
+            now[0] = gm.T0 + timedelta(seconds=t)
+            for srv in g.servers:
+                srv.down = srv.idx in ph["down"]
+            perm = [permitted(i, t) for i in range(ns)]
+            for op in ph["ops"]:
+                before = holdings()
+                allocs = []
+
+                def ob(m, phase, res):
+                    if phase == "delivered" and m.meth == "allocate_buckets":
+                        allocs.append(m.server.idx)
+                g.sched.observers.append(ob)
+                try:
+                    if op == "upload":
+                        nup += 1
+                        r = g.run(c.upload(Data(pbytes(nup, 200 + nup), convergence=b"c%d" % nup)))
+                    elif op == "create" or node is None:
+                        op = "create"
+                        r = mutfile.create(g, c, case["fmt"], pbytes(50 + nup, 100))
+                        if r[0] == "ok":
+                            node = r[1]
+                    else:
+                        r = g.run(node.overwrite(mutfile.mdata(pbytes(70 + len(hist), 120))))
+                finally:
+                    g.sched.observers.remove(ob)
+                after = holdings()
+                hist.append((t, op, r[0] if r[0] != "err" else type(r[1]).__name__))
+                desc = "servers=%d certificates(expiry s after T0, None=no cert, F=foreign key)=%r grid-manager key configured=%s k=%d N=%d history=%r (clock T0+%ds, down %r)" % (
+                    ns, [("F%r" % e if f else e) for e, f in zip(case["certs"], case["foreign"])], case["configured"], k, n, hist, t, sorted(ph["down"]))
+                for i in range(ns):
+                    gained = sorted(after.get(i, set()) - before.get(i, set()))
+                    if not perm[i]:
+                        ctx.check(i not in allocs, "allocate-sent-to-unpermitted-server", "%s: an immutable allocation request was sent to server %d, which holds no currently valid certificate" % (desc, i), op=op)
+                        ctx.check(not gained, "new-share-on-unpermitted-server", "%s: server %d holds no currently valid certificate but received new share(s) %r" % (desc, i, [sh for (_, sh) in gained]), op=op)
+                    elif gained:
+                        classes.add("share-placed-on-permitted-server")
+                if case["configured"] and not all(perm) and any(perm):
+                    classes.add("grid-mixed-permitted")
+                    if any(not perm[i] and before.get(i) for i in range(ns)) and op == "overwrite":
+                        classes.add("publish-with-shares-on-server-whose-certificate-lapsed")
+                        nt = True
+    finally:
+        gmmod.current_datetime_with_zone = orig
+        mutfile.restore_segsize()
+        if g is not None:
+            g.stop()
+    ctx.note(sig=repr(case), nontrivial=nt, classes=sorted(classes) + ["grid-family"], sample={"certs": case["certs"], "phases": case["phases"], "history": hist})
 
 
 @st.composite
@@ -41,10 +148,15 @@ def cases(draw):
 
 
 def run_shard(spec, ctx):
-    ctx.drive(cases(), spec["n"], run_case)
+    if spec["kind"] == "grid":
+        ctx.drive(grid_cases(), spec["n"], run_case)
+    else:
+        ctx.drive(cases(), spec["n"], run_case)
 
 
 def run_case(case, ctx):
+    if case.get("fam") == "grid":
+        return run_grid_case(case, ctx)
     import allmydata.grid_manager as gmmod
     from allmydata.storage_client import StorageFarmBroker, StorageClientConfig, HTTPNativeStorageServer
     from allmydata.node import config_from_string
